@@ -144,11 +144,11 @@ def jobs(tier, seed, excluded=()):
     rng = random.Random(seed)
     if tier == "quick":
         dom = Dom(int_max=2000, str_mode="cand", str_cands=["p"])
-        trees = ["T03", "T04", "T06", "T11", "E_range_bound", "E_range_cond", "E_hexfloat", "E_set_val_int"]
+        trees = ["T03", "T04", "T06", "T11", "E_range_bound", "E_range_bound_dep", "E_setdef_range", "E_range_cond", "E_hexfloat", "E_set_val_int"]
         budget, nparts, tmo = 150, 2, 100
     else:
         dom = Dom(int_max=1000000, str_mode="cand", str_cands=["p", ""])
-        trees = ["T03", "T04", "T06", "T09", "T11", "T14", "T15", "E_range_bound", "E_range_cond", "E_hexfloat", "E_set_val_int", "E_default_val", "F:kconfserver/Kconfig"]
+        trees = ["T03", "T04", "T06", "T09", "T11", "T14", "T15", "E_range_bound", "E_range_bound_dep", "E_setdef_range", "E_range_cond", "E_hexfloat", "E_set_val_int", "E_default_val", "F:kconfserver/Kconfig"]
         budget, nparts, tmo = 600, 4, 400
     out = []
     for door in ("api", "file"):
